@@ -238,7 +238,7 @@ def obligations(tier):
         obs.append(('skipped', 'tail/line', 'DiffXReader._read_header not found in the current source; '
                     'public-API obligation only'))
     else:
-        NT = {'quick': (7, 4), 'thorough': (9, 7)}[tier]
+        NT = {'quick': (7, 4), 'thorough': (8, 6)}[tier]
         for i, sid in enumerate(IDS):
             N = NT[0] if sid == 'diffx' else NT[1]
             for crlf in (False, True):
